@@ -69,6 +69,134 @@ def closure_rule(ctx: Ctx, fns: list[FunctionInfo]) -> int:
     return n
 
 
+def _recorder_model(ctx: Ctx, c, init: FunctionInfo, reg: FunctionInfo) -> None:
+    import re as _re
+    from ..modelinterp import Budget, Effect, Interp, LocalFn, Obj, Sym, UNKNOWN, _NONE
+    prog = ctx.prog
+    fit = Obj("Fitness", {"maximizing_aggregate": Sym("agg"), "fitness_components": [Sym("c0"), Sym("c1"), Sym("c2")]})
+
+    def call_model(it, call, env, args, kwargs):
+        nm = call_name(call)
+        recv = it.ev(call.func.value, env, 9) if isinstance(call.func, ast.Attribute) else None
+        if nm == "open" and isinstance(call.func, ast.Name):
+            return Sym("file")
+        if nm == "writer" and args and isinstance(args[0], Sym) and args[0].tag == "file":
+            return Sym("writer")
+        if nm in ("writerow", "writerows") and isinstance(recv, Sym) and recv.tag == "writer":
+            it.trace.append(Effect("call", "writerow", (list(args[0]) if args and isinstance(args[0], list) else (args[0] if args else UNKNOWN),), {}, node=call, fn=it.fn_stack[-1]))
+            return _NONE
+        if nm == "flush" and isinstance(recv, Sym):
+            it.trace.append(Effect("call", "flush", (), {}, node=call, fn=it.fn_stack[-1], recv=recv))
+            return _NONE
+        if nm == "number_of_objectives":
+            return 3
+        if nm == "get_phenotype" and isinstance(recv, Sym):
+            return Sym("phen:" + recv.tag)
+        if nm == "get_fitness" and isinstance(recv, Sym) and recv.tag == "ind":
+            return fit
+        if nm in ("monotonic_ns", "makedirs", "dirname", "exists"):
+            return UNKNOWN
+        return None
+
+    results = {}
+    und = None
+    for extra in (None, {"Extra": Sym("EXTRAFN")}):
+        for only in (False, True):
+            for best in (False, True):
+                it = Interp(prog, c, lambda *_: None, call_model, max_depth=5, max_traces=16)
+                it.sym_result = lambda fv, a: Sym(fv.tag + "()")
+                env0 = {"self": Sym("self")}
+                a = init.node.args
+                names = [x.arg for x in a.posonlyargs + a.args + a.kwonlyargs][1:]
+                defaults = dict(zip([x.arg for x in a.args][len(a.args) - len(a.defaults):], a.defaults))
+                for p_ in names:
+                    if "only" in p_:
+                        env0[p_] = only
+                    elif p_ == "extra_fields":
+                        env0[p_] = dict(extra) if extra else None
+                    elif p_ == "fields":
+                        env0[p_] = None
+                    elif p_ == "problem":
+                        env0[p_] = Sym("problem")
+                    elif p_ in defaults:
+                        env0[p_] = it.ev(defaults[p_], {}, 0)
+                    else:
+                        env0[p_] = Sym(p_)
+                rp = reg.params
+                env = {"self": Sym("self"), rp[1]: Sym("tracker"), rp[2]: Sym("ind"), rp[3]: Sym("problem"), rp[4]: best}
+                try:
+                    runs = it.run(reg, env, prelude=(init, env0))
+                except Budget:
+                    und = "too many interpretations"
+                    continue
+                results[(bool(extra), only, best)] = (runs, it.prelude_len, list(it.envs))
+    bad = {}
+    n = 0
+    for (has_extra, only, best), (runs, plen, envs) in results.items():
+        for (trace, rv, notes), env_after in zip(runs, envs):
+            if any(e.kind == "raise" for e in trace):
+                continue
+            n += 1
+            pre, post = trace[:plen], trace[plen:]
+            scen = {"extra_fields": has_extra, "only_record_best_individuals": only, "is_best": best}
+            fields = env_after.get("self.fields")
+            fkeys = list(fields.keys()) if isinstance(fields, dict) else None
+            # every writerow is followed by a flush before the method ends / the next write
+            for part, where in ((pre, "__init__"), (post, "register")):
+                ws = [i for i, e in enumerate(part) if e.kind == "call" and e.name == "writerow"]
+                for i in ws:
+                    nxt = next((e for e in part[i + 1:] if e.kind == "call" and e.name in ("writerow", "flush")), None)
+                    if nxt is None or nxt.name != "flush" or not (isinstance(nxt.recv, Sym) and nxt.recv.tag == "file"):
+                        bad.setdefault("flush", (f"in {where} a row is written without a flush of the log file following it: a crash leaves the row in the "
+                                                 f"buffer (or half written)", scen))
+            hdr = [e for e in pre if e.kind == "call" and e.name == "writerow"]
+            if len(hdr) != 1 or not isinstance(hdr[0].args[0], list):
+                if fkeys is None:
+                    und = und or "header / field mapping not followed"
+                else:
+                    bad.setdefault("header", (f"{len(hdr)} rows are written by __init__ (expected exactly the header)", scen))
+                continue
+            header = hdr[0].args[0]
+            if fkeys is not None and header != fkeys:
+                bad.setdefault("header", (f"the header is {header!r} but the field mapping has the columns {fkeys!r}: rows and header disagree", scen))
+            if has_extra and "Extra" not in header:
+                bad.setdefault("header", (f"the extra field is missing from the header {header!r}", scen))
+            rows = [e for e in post if e.kind == "call" and e.name == "writerow"]
+            want = (not only) or best
+            if (len(rows) == 1) != want or len(rows) > 1:
+                bad.setdefault("gate", (f"only_record_best_individuals={only}, is_best={best}: {len(rows)} row(s) written, expected {1 if want else 0}", scen))
+                continue
+            if rows:
+                row = rows[0].args[0]
+                if not isinstance(row, list):
+                    und = und or "row not followed"
+                    continue
+                if len(row) != len(header):
+                    bad.setdefault("rows", (f"a row has {len(row)} cells, the header {len(header)} columns", scen))
+                    continue
+                for col, cell in zip(header, row):
+                    m = _re.fullmatch(r"Fitness(\d+)", col) if isinstance(col, str) else None
+                    if m:
+                        k = int(m.group(1))
+                        if cell != Sym(f"c{k}"):
+                            bad.setdefault("fitness", (f"column {col} holds {cell!r} instead of fitness component {k} of the registered individual"
+                                                       + (": every FitnessK closure reads the last component (late binding)" if cell == Sym("c2") else ""), scen))
+                    elif col == "Phenotype" and cell != Sym("phen:ind"):
+                        bad.setdefault("extractor", (f"column Phenotype holds {cell!r}, not the registered individual's phenotype", scen))
+                    elif col == "Extra" and cell != Sym("EXTRAFN()"):
+                        bad.setdefault("extractor", (f"column Extra holds {cell!r}, not the value of the extra field's callback", scen))
+    for key, rule, desc in (("flush", "C20.R2", "every row written is followed by a flush of the log file"),
+                            ("header", "C20.R3", "the header is the list of columns of the field mapping (default and extra fields), written once"),
+                            ("rows", "C20.R3", "every row has one cell per header column"),
+                            ("gate", "C20.R4", "a row is written iff (not only_best) or is_best"),
+                            ("fitness", "C20.R6", "column FitnessK holds component K of the registered individual"),
+                            ("extractor", "C20.R6", "extractors are applied to the registered individual")):
+        b = bad.get(key)
+        ctx.ob(rule, reg if key in ("gate", "rows", "fitness", "extractor") else init, (reg if key in ("gate", "rows", "fitness", "extractor") else init).node,
+               f"{c.name}: {desc}", False if b else (None if und else True), b[0] if b else (und or ""), witness=b[1] if b else {"scenarios": n})
+    ctx.floor("C20.R3", n, 8, "interpreted recorder scenarios")
+
+
 def is_stub_fn(f) -> bool:
     from ..frontend import is_stub
     return is_stub(f.node)
@@ -109,7 +237,7 @@ def run(ctx: Ctx) -> None:
                 scope.append(f)
                 break
     n = closure_rule(ctx, scope)
-    ctx.floor("C20.R1", n, 2, "closures created in loops within recorder construction code")
+    ctx.floor("C20.R1", n, 1, "closures created in loops within recorder construction code")
 
     for c in csv_recs:
         init = c.methods.get("__init__")
@@ -127,149 +255,10 @@ def run(ctx: Ctx) -> None:
         if writer_attr is None:
             raise AnalysisError(f"C20: cannot find self.<writer> = csv.writer(self.<file>) in {init.fullname}")
 
-        # ---- R2 write -> flush
-        nwrites = 0
-        for f in c.methods.values():
-            for call in res.calls_in(f):
-                if isinstance(call.func, ast.Attribute) and call.func.attr in ("writerow", "writerows") \
-                        and is_self_attr(call.func.value, writer_attr):
-                    nwrites += 1
-                    st = enclosing_stmt(call)
-                    ok, why = False, "no flush of the wrapped file follows the write in the same block"
-                    for later in stmts_after(st):
-                        if isinstance(later, ast.Expr) and isinstance(later.value, ast.Call) \
-                                and isinstance(later.value.func, ast.Attribute) and later.value.func.attr == "flush" \
-                                and is_self_attr(later.value.func.value, file_attr):
-                            ok, why = True, f"self.{file_attr}.flush() follows in the same block"
-                            break
-                        if not may_fall_through([later]) or isinstance(later, (ast.If, ast.For, ast.While, ast.Try, ast.With)):
-                            why = f"control may leave before a flush ({type(later).__name__} at line {later.lineno})"
-                            break
-                    ctx.ob("C20.R2", f, call, f"self.{writer_attr}.{call.func.attr}(...) -> flush", ok, why)
-        ctx.floor("C20.R2", nwrites, 2, f"writerow sites in {c.name}")
-
-        # ---- R3 columns agree
-        fields_attr = None
-        header_call = None
-        for call in res.calls_in(init):
-            if isinstance(call.func, ast.Attribute) and call.func.attr == "writerow" and call.args:
-                a = call.args[0]
-                if isinstance(a, (ast.ListComp, ast.GeneratorExp)) and len(a.generators) == 1 \
-                        and is_self_attr(a.generators[0].iter) and isinstance(a.elt, ast.Name) \
-                        and a.elt.id in loop_vars(a):
-                    fields_attr, header_call = a.generators[0].iter.attr, call
-                elif isinstance(a, ast.Call) and call_name(a) in ("list", "tuple") and a.args and is_self_attr(a.args[0]):
-                    fields_attr, header_call = a.args[0].attr, call
-        ctx.ob("C20.R3", init, header_call or init.node, "header = keys of the field mapping", header_call is not None,
-               "header row is not a plain enumeration of self.<fields> keys" if header_call is None else
-               f"header enumerates self.{fields_attr}")
-        if header_call is not None:
-            hdr_stmt = enclosing_stmt(header_call)
-            # rows
-            for call in res.calls_in(reg):
-                if isinstance(call.func, ast.Attribute) and call.func.attr == "writerow" and call.args:
-                    a = call.args[0]
-                    ok = False
-                    why = "row is not [self.<fields>[name](...) for name in self.<fields>] over the header's mapping"
-                    if isinstance(a, (ast.ListComp, ast.GeneratorExp)) and len(a.generators) == 1 \
-                            and is_self_attr(a.generators[0].iter, fields_attr) and not a.generators[0].ifs:
-                        var = loop_vars(a)
-                        e = a.elt
-                        if isinstance(e, ast.Call) and isinstance(e.func, ast.Subscript) \
-                                and is_self_attr(e.func.value, fields_attr) and isinstance(e.func.slice, ast.Name) \
-                                and e.func.slice.id in var:
-                            ok, why = True, "row cells are produced by the mapping's own values in mapping order"
-                    ctx.ob("C20.R3", reg, call, "row = values of the same mapping in the same order", ok, why)
-            # stores to the mapping
-            for f in c.methods.values():
-                for n_ in walk_local(f.node, include_nested=True):
-                    tgt = None
-                    if isinstance(n_, (ast.Assign, ast.AugAssign, ast.AnnAssign, ast.Delete)):
-                        tgts = n_.targets if isinstance(n_, (ast.Assign, ast.Delete)) else [n_.target]
-                        for t in tgts:
-                            b = t.value if isinstance(t, ast.Subscript) else t
-                            if is_self_attr(b, fields_attr):
-                                tgt = n_
-                    elif isinstance(n_, ast.Call) and isinstance(n_.func, ast.Attribute) \
-                            and is_self_attr(n_.func.value, fields_attr) \
-                            and n_.func.attr in {"update", "pop", "popitem", "clear", "setdefault", "__setitem__", "__delitem__"}:
-                        tgt = enclosing_stmt(n_)
-                    if tgt is None:
-                        continue
-                    ok = f is init and _precedes(tgt, hdr_stmt, init.node)
-                    ctx.ob("C20.R3", f, tgt, f"store to self.{fields_attr}: {norm(tgt)[:60]}", ok,
-                           "mapping modified before the header is written" if ok else
-                           "field mapping modified after (or outside) the header write: rows and header disagree")
-
-        # ---- R4 gating
-        params = reg.params
-        if len(params) < 5:
-            raise AnalysisError(f"C20: {reg.fullname} signature changed")
-        is_best_p = params[4]
-        only_attr = None
-        for n_ in walk_local(init.node):
-            if isinstance(n_, ast.Assign) and len(n_.targets) == 1 and is_self_attr(n_.targets[0]) \
-                    and isinstance(n_.value, ast.Name) and "only" in n_.value.id and n_.value.id in init.params:
-                only_attr = n_.targets[0].attr
-        for call in res.calls_in(reg):
-            if isinstance(call.func, ast.Attribute) and call.func.attr == "writerow":
-                gs = guards(call, stop=reg.node)
-                if only_attr is None:
-                    ctx.ob("C20.R4", reg, call, "row gate", None, "cannot identify the only-best configuration attribute")
-                    continue
-                atoms = {"a_only": lambda e: is_self_attr(e, only_attr),
-                         "b_best": lambda e: isinstance(e, ast.Name) and e.id == is_best_p}
-                tables = []
-                for test, pol in gs:
-                    tt = truth_table(test, atoms)
-                    tables.append((tt, pol))
-                if any(t is None for t, _ in tables):
-                    ctx.ob("C20.R4", reg, call, "row gate", None, "guard is not a boolean combination of only_best/is_best")
-                    continue
-                bad = []
-                for only in (False, True):
-                    for best in (False, True):
-                        written = all((t[(only, best)] == pol) for t, pol in tables)
-                        want = (not only) or best
-                        if written != want:
-                            bad.append({"only_best": only, "is_best": best, "written": written, "expected": want})
-                ctx.ob("C20.R4", reg, call, "row gate = (not only_best) or is_best", not bad,
-                       f"gate differs at {bad}" if bad else "truth table matches on all 4 assignments", witness=bad)
-
-        # ---- R6 column/index agreement and extractor provenance
-        n6 = 0
-        for lam in [x for m_ in c.methods.values() for x in walk_local(m_.node, include_nested=True) if isinstance(x, ast.Lambda)]:
-            subs = [s for s in ast.walk(lam.body) if isinstance(s, ast.Subscript)
-                    and isinstance(s.value, ast.Attribute) and s.value.attr == "fitness_components"]
-            if not subs:
-                continue
-            st = enclosing_stmt(lam)
-            key = None
-            if isinstance(st, ast.Assign) and isinstance(st.targets[0], ast.Subscript):
-                key = st.targets[0].slice
-            for s in subs:
-                n6 += 1
-                idx = s.slice
-                ok, why = False, "column key and component index are not the same bound variable"
-                if isinstance(idx, ast.Name) and key is not None:
-                    # the index must denote the loop variable that also forms the column name
-                    a = lam.args
-                    defaults = dict(zip([x.arg for x in a.args][len(a.args) - len(a.defaults):], a.defaults))
-                    src = defaults.get(idx.id)
-                    denotes = src.id if isinstance(src, ast.Name) else (idx.id if idx.id not in [x.arg for x in a.args] else None)
-                    if denotes is not None and denotes in names_read(key):
-                        # receiver must be the lambda's individual parameter
-                        ok, why = True, f"column name and index both derive from loop variable '{denotes}'"
-                ctx.ob("C20.R6", ctx.prog.function_containing(lam) or init, s, f"Fitness column index {norm(idx)}", ok, why)
-        # register passes the individual parameter to every extractor
-        ind_p = params[2]
-        for call in res.calls_in(reg):
-            if isinstance(call.func, ast.Subscript) and is_self_attr(call.func.value, fields_attr or ""):
-                n6 += 1
-                ok = len(call.args) >= 2 and isinstance(call.args[1], ast.Name) and call.args[1].id == ind_p
-                ctx.ob("C20.R6", reg, call, "extractor receives the registered individual", ok,
-                       "" if ok else "field extractor is not applied to the individual being registered")
-        ctx.floor("C20.R6", n6, 2, "column/extractor sites")
+        # ---- R2 / R3 / R4 / R6: the recorder is interpreted (sa/modelinterp): __init__ (default fields, with and without extra
+        # fields) followed by register() for the four (only_best, is_best) combinations; the file and csv writer are symbolic
+        # objects whose writerow / flush calls are recorded
+        _recorder_model(ctx, c, init, reg)
 
     # extra-field wrappers built outside the recorder (SimpleGP): callback key = dict key, argument = individual's program
     for f in scope:
@@ -320,7 +309,7 @@ def run(ctx: Ctx) -> None:
                 nother += 1
                 ctx.ob("C20.R5", f, n_, f"foreign access to .{n_.attr}", False,
                        "code outside the recorder reaches the log handle")
-    ctx.floor("C20.R5", nother, 4, "handle uses inside the recorder")
+    ctx.floor("C20.R5", nother, 2, "handle uses inside the recorder")
 
     # ---- R7 trackers register everything: evaluate() of every tracker class is interpreted (sa/modelinterp; methods of the
     # tracker inlined through the hierarchy) on batches of symbolic individuals with two recorders; whatever the comparison
